@@ -422,6 +422,15 @@ _amend("C05", "rule", "Non-trivial", "One failing handler in six also sets trail
 _amend("C07", "rule", "Non-trivial", "HttpBody uploads (TestPropHTTPBody) bind file.content_type and name in the path against the request's Content-Type and query, unary, client-streaming (RecvMsg or AsHTTPBodyReader) and bidi with an HttpBody reply stream whose handler may open AsHTTPBodyWriter before its first receive. Non-trivial")
 _amend("C13", "rule", "TestPropStress: non-trivial", "TestPropStress also returns one shared reply object of the handler to bursts of three concurrent callers of a rule with response_body (the server may only read it). TestPropStress: non-trivial")
 
+# round 10
+_amend("C04", "rule", "(the same download, then an unrelated larger request)", "(an unrelated larger request carrying the same Accept header in the other codec, the same download, the unrelated request again)")
+_amend("C05", "rule", "Non-trivial", "One mux in six has a send limit of 16/64/256 bytes (a status is not a message: it must arrive whatever its size). Non-trivial")
+_amend("C08", "rule", "Non-trivial", "A third of the protobuf cases build their messages from 2-byte occurrences of one field (the last occurrence wins), so that a message cut short at the limit would still decode. Non-trivial")
+_amend("C19", "rule", "Non-trivial", "In half of the healthz cases the config also holds a user rule on Health.Check (get /livez), added before or after AddHealthz; both paths must report the statuses. Non-trivial")
+_amend("C20", "rule", "Non-trivial", "HEAD is among the verbs; one case in twenty also sends its http/twirp requests over real HTTP/1.1 connections (in memory) to a real net/http server on either side and compares the raw response bytes. Non-trivial")
+_amend("C11", "rule", "a route with a path variable and a qu", "a route with a path variable and nested as well as top-level query parameters - formerly only a top-level qu")
+_amend("C12", "rule", "TestPropStress:", "TestPropStress (readers also probe the pre-registered, later co-owned SvcA through its path-variable binding with nested query parameters):")
+
 # native coverage-guided fuzzing of the same generators (thorough tier only)
 for _k, _t in (("C01", "FuzzRoute"), ("C03", "FuzzTranscode"), ("C16", "FuzzRegister"), ("C17", "FuzzCodec")):
     PROPS[_k]["fuzz"] = {"target": _t, "seconds": 120}
